@@ -80,7 +80,51 @@ func (g *c19Gen) indexCmd() string {
 
 var c19Tables = []string{"tout csv 'a,b\\n1,2\\n3,4\\n'", "tout generic 'a b\\n1 2\\n3 4\\n'", "tout tsv 'a\\tb\\n1\\t2\\n'", "tout csv 'a,b\\n1,2\\n'", "tout jsonl '[1,2]\\n[3,4]\\n'", "tout json [1,2,3]", "tout json '{\"a\":1,\"b\":[1,2]}'", "tout yaml '- 1\\n- 2'", "a [1..5]", "tout str 'a b\\nc d\\n'", "tout json '[{\"a\":1},{\"a\":2}]'", "tout toml 'a = 1'"}
 
+// invocations that are well formed but sit on a boundary of the command's own parameters
+var c19Nums = []string{"0", "1", "2", "3", "5", "-1", "-0", "99", "1e-1", "0.5", "1e309", "NaN", "-9223372036854775808", "9223372036854775807", "''", "abc"}
+
+func (g *c19Gen) template() string {
+	n := func() string { return c19Nums[g.r.Intn(len(c19Nums))] }
+	// sizes of things murex is asked to produce stay small: a request for 2^32 elements
+	// exhausts memory by design and says nothing about robustness
+	small := func() string { return []string{"0", "1", "2", "3", "5", "-1", "-0", "99", "1e-1", "0.5", "NaN", "''", "abc"}[g.r.Intn(13)] }
+	lists := []string{"a [a,,b,,,c]", "a [,,]", "a [1..5]", "ja [1..3]", "tout json '[\"\",\"x\",\"\"]'", "tout str ''", "a [a,,b]"}
+	l := lists[g.r.Intn(len(lists))]
+	t := []string{
+		l + " -> foreach --parallel " + n() + " v { out $v }",
+		l + " -> foreach --step " + n() + " v { out $v }",
+		l + " -> foreach --jmap v { out $v } { out $v }",
+		"round -d " + n() + " " + n(),
+		"round -u " + n() + " " + n(),
+		"round " + n() + " " + n(),
+		"out abc -> left " + n(),
+		"out abc -> right " + n(),
+		l + " -> left " + n(),
+		l + " -> right " + n(),
+		l + " -> [ " + n() + " ]",
+		l + " -> [ " + n() + ".." + n() + " ]",
+		"rand int " + n(),
+		"rand str " + small(),
+		"a [" + small() + ".." + small() + "]",
+		"a [1..3] -> mjoin " + n(),
+		"datetime --in " + n() + " --out " + n(),
+		"function c19t (n: int) { out $n }\nc19t " + n() + "\n!function c19t",
+		"function c19t (n: int [" + n() + "]) { out $n }\nc19t\n!function c19t",
+		l + " -> jsplit " + n(),
+		l + " -> count --" + []string{"total", "sum", "unique", "duplications", "bogus"}[g.r.Intn(5)],
+		l + " -> tabulate --column-wraps --key-inc-hint --split-comma --joiner " + n(),
+		l + " -> addheading " + n(),
+		l + " -> 2darray { out a } { out b }",
+		"switch " + n() + " { case 1 { out a } default { out b } }",
+		"switch { if { false } { out a } catch { out b } }",
+	}
+	return t[g.r.Intn(len(t))]
+}
+
 func (g *c19Gen) pipeline() string {
+	if g.r.Intn(4) == 0 {
+		return g.template()
+	}
 	if g.r.Intn(5) == 0 {
 		p := c19Tables[g.r.Intn(len(c19Tables))] + " -> " + g.indexCmd()
 		if g.r.Intn(3) == 0 {
